@@ -34,12 +34,39 @@ _INVALID_N = re.compile(r"INVALID \d+")
 _ERR_KIND = re.compile(r"\bERR [A-Z][A-Za-z]+")
 
 
+def _mask_dont_care(out):
+    """C07 declares the stale reserved-bits masks don't-care: a bundle whose control flags contain all of 0xE218, or one of whose blocks
+    has control flags containing all of 0xF0, may be accepted or rejected.  Wherever a result line prints a bundle followed by the
+    library's verdict on it (`.. B P <ver> <flags> .. [ C <type> <num> <flags> .. ] FINAL VALID|INVALID n`, `.. <bundle> VALID|INVALID`),
+    the verdict on such a bundle is replaced by DONTCARE on both sides of the diff."""
+    if " VALID" not in out and " INVALID" not in out:
+        return out
+    t = out.split(" ")
+    dc = False
+    for i, x in enumerate(t):
+        try:
+            if x == "B":
+                dc = False
+            elif x == "P" and i + 2 < len(t) and (int(t[i + 2]) & 0xE218) == 0xE218:
+                dc = True
+            elif x == "C" and i + 3 < len(t) and (int(t[i + 3]) & 0xF0) == 0xF0:
+                dc = True
+        except ValueError:
+            pass
+        if dc and x in ("VALID", "INVALID") and i > 0 and t[i - 1] in ("FINAL", "]"):
+            t[i] = "DONTCARE"
+            if x == "INVALID" and i + 1 < len(t) and t[i + 1].isdigit():
+                t[i + 1] = ""
+    return " ".join(y for y in t if y != "")
+
+
 def default_canon(out):
     """canonical form for the model/implementation diff: error counts and error kinds are not part of any property
-    (a refactoring that merges two validation messages or returns another error variant is harmless)"""
+    (a refactoring that merges two validation messages or returns another error variant is harmless); verdicts on bundles inside
+    the property's don't-care masks are not compared"""
     if out is None:
         return out
-    return _ERR_KIND.sub("ERR", _INVALID_N.sub("INVALID", out))
+    return _mask_dont_care(_ERR_KIND.sub("ERR", _INVALID_N.sub("INVALID", out)))
 
 
 class PairAware(object):
